@@ -356,6 +356,135 @@ Proof.
   - intros H. right. apply IH. exact H.
 Qed.
 
+
+(* ================= path freeness WITH the component cache =================
+   The diagrams topdown_h returns test only variables of the RESIDUAL formula (variables with an
+   unset occurrence in a non-tautological clause that has no true literal).  Those are unset in
+   every state with that residual formula, so a cache hit can never return a diagram testing an
+   assigned variable.  Two operational facts about the propagator are needed:
+   (1) up_new_in_res: every literal a decide assigns beyond the decided one was the last unset
+       literal of an unsatisfied clause, so its variable is in the residual of the old model;
+   (2) quiet_loop: deciding a variable OUTSIDE the residual propagates nothing; the state after
+       it has the same hash and satisfied flag, so the second arm's recursive call replays the
+       first arm's skips and hits the entry the first arm just stored: the arms are pointer-equal
+       and no node on that variable is built. *)
+Definition has_var (v : nat) (c : clause) : bool := existsb (fun l => Nat.eqb (lvar l) v) c.
+Definition inresb (cls : list clause) (m : pmodel) (v : nat) : bool :=
+  existsb (fun c => negb (clause_sat m c) && negb (tautological c) && has_var v c) cls.
+
+Lemma inresb_spec cls m v : inresb cls m v = true <->
+  exists c, In c cls /\ clause_sat m c = false /\ tautological c = false /\ exists l, In l c /\ lvar l = v.
+Proof.
+  unfold inresb, has_var. rewrite existsb_exists. split.
+  - intros [c [Hc H]]. apply andb_true_iff in H. destruct H as [H H3]. apply andb_true_iff in H.
+    destruct H as [H1 H2]. apply negb_true_iff in H1. apply negb_true_iff in H2.
+    apply existsb_exists in H3. destruct H3 as [l [Hl E]]. apply Nat.eqb_eq in E.
+    exists c. repeat split; auto. exists l. auto.
+  - intros [c [Hc [H1 [H2 [l [Hl E]]]]]]. exists c. split; [exact Hc|]. rewrite H1, H2. cbn [negb andb].
+    apply existsb_exists. exists l. split; [exact Hl|apply Nat.eqb_eq; exact E].
+Qed.
+
+Lemma inresb_anti cls m m' v : pm_le m m' -> inresb cls m' v = true -> inresb cls m v = true.
+Proof.
+  intros Hle H. apply inresb_spec in H. destruct H as [c [Hc [H1 [H2 H3]]]]. apply inresb_spec.
+  exists c. repeat split; auto. destruct (clause_sat m c) eqn:E; [|reflexivity].
+  rewrite (clause_sat_le _ _ _ Hle E) in H1. discriminate.
+Qed.
+
+Lemma lneg_neq l : l <> lneg l.
+Proof. destruct l as [v p]. unfold lneg. simpl. intros H. inversion H. destruct p; discriminate. Qed.
+
+(* a tautological clause is never falsified and never unit *)
+Lemma taut_two m c : tautological c = true -> clause_sat m c = true \/ 2 <= length (remaining m c).
+Proof.
+  unfold tautological. intros H. apply existsb_exists in H. destruct H as [l [Hl H]].
+  apply existsb_exists in H. destruct H as [l' [Hl' He]]. apply lit_eqb_eq in He. subst l'.
+  destruct (pm_get m (lvar l)) as [b|] eqn:E.
+  - left. apply existsb_exists. destruct (Bool.eqb (lpol l) b) eqn:Eb.
+    + exists l. split; [exact Hl|]. unfold lit_true. rewrite E. exact Eb.
+    + exists (lneg l). split; [exact Hl'|]. unfold lit_true, lneg, lvar, lpol in *. cbn [fst snd] in *.
+      rewrite E. destruct (snd l), b; simpl in *; congruence.
+  - right. apply (two_in_length l (lneg l)); [apply lneg_neq| |]; apply filter_In; split; auto;
+      unfold lit_unset, pm_is_set; rewrite ?lvar_lneg, E; reflexivity.
+Qed.
+
+Lemma up_new_in_res cls fuel :
+  (forall w m a w' m1, w_ok (length cls) w -> up_decide false cls fuel w m a = URes w' (Some m1) ->
+     forall v, pm_get m v = None -> pm_get m1 v <> None -> v = lvar a \/ inresb cls m v = true) /\
+  (forall w m a idx w' m1, w_ok (length cls) w -> up_loop false cls fuel w m a idx = URes w' (Some m1) ->
+     forall v, pm_get m v = None -> pm_get m1 v <> None -> inresb cls m v = true).
+Proof.
+  induction fuel as [|f [IHd IHl]]; [split; intros; discriminate|]. split.
+  - intros w m a w' m1 Hw H v Hv Hn. rewrite up_decide_S in H.
+    destruct (pm_get m (lvar a)) as [x|] eqn:E.
+    + destruct (Bool.eqb x (lpol a)); [|discriminate]. injection H as _ <-. contradiction.
+    + destruct (Nat.eq_dec v (lvar a)) as [->|Hne]; [left; reflexivity|right].
+      apply (inresb_anti cls m (pm_set m (lvar a) (lpol a))); [apply pm_le_set; exact E|].
+      eapply IHl; [exact Hw|exact H| |exact Hn]. rewrite pm_get_set_other by congruence. exact Hv.
+  - intros w m a idx w' m1 Hw H v Hv Hn. rewrite up_loop_S in H. cbv zeta in H.
+    destruct (Nat.leb (length (wl_get w (lneg a))) idx) eqn:Eidx; [injection H as _ <-; contradiction|].
+    apply Nat.leb_gt in Eidx.
+    set (ci := nth idx (wl_get w (lneg a)) 0) in *.
+    assert (Hci : ci < length cls).
+    { pose proof (wl_get_ok _ _ (lneg a) Hw) as Hall. eapply Forall_forall in Hall; [exact Hall|].
+      apply nth_In. exact Eidx. }
+    set (c := nth ci cls []) in *.
+    assert (Hc : In c cls) by (apply nth_In_clause; exact Hci).
+    destruct (clause_sat m c) eqn:Esat; [eapply IHl; eauto|].
+    destruct (remaining m c) as [|u [|second rest]] eqn:Erem.
+    + discriminate.
+    + destruct (up_decide false cls f w m u) as [|w1 [m1'|]] eqn:Ed; try discriminate.
+      pose proof (proj1 (up_basic false cls f) _ _ _ _ _ Hw Ed) as [Hw1 [Hm1 _]].
+      destruct (Hm1 m1' eq_refl) as [_ Hle1].
+      destruct (pm_get m1' v) as [b|] eqn:E1.
+      * destruct (IHd _ _ _ _ _ Hw Ed v Hv) as [->|Hin]; [congruence| |exact Hin].
+        apply inresb_spec. exists c. split; [exact Hc|split; [exact Esat|split]].
+        -- destruct (tautological c) eqn:Et; [|reflexivity]. exfalso.
+           destruct (taut_two m c Et) as [Hs|Hl]; [congruence|]. rewrite Erem in Hl. simpl in Hl. lia.
+        -- exists u. split; [|reflexivity]. apply (remaining_in m c u). rewrite Erem. left. reflexivity.
+      * apply (inresb_anti cls m m1' v Hle1). eapply IHl; [exact Hw1|exact H|exact E1|exact Hn].
+    + eapply IHl; [|exact H|exact Hv|exact Hn].
+      apply wl_push_ok; [|exact Hci]. apply wl_put_ok; [exact Hw|].
+      apply swap_remove_ok. apply wl_get_ok. exact Hw.
+Qed.
+
+Lemma wl_push_lens w l ci :
+  length (wpos (wl_push w l ci)) = length (wpos w) /\ length (wneg (wl_push w l ci)) = length (wneg w).
+Proof. unfold wl_push. apply wl_put_lengths. Qed.
+
+Lemma quiet_loop cls m a : pm_is_set m (lvar a) = true ->
+  forall fuel w idx w' r,
+  lvar a < length (wpos w) -> lvar a < length (wneg w) ->
+  Forall (fun ci => clause_sat m (nth ci cls []) = true \/ 2 <= length (remaining m (nth ci cls [])))
+         (wl_get w (lneg a)) ->
+  up_loop false cls fuel w m a idx = URes w' r -> r = Some m.
+Proof.
+  intros Hset. induction fuel as [|f IH]; intros w idx w' r L1 L2 HP H; [discriminate|].
+  rewrite up_loop_S in H. cbv zeta in H.
+  destruct (Nat.leb (length (wl_get w (lneg a))) idx) eqn:Eidx; [inversion H; reflexivity|].
+  apply Nat.leb_gt in Eidx.
+  set (ci := nth idx (wl_get w (lneg a)) 0) in *.
+  assert (HPci : clause_sat m (nth ci cls []) = true \/ 2 <= length (remaining m (nth ci cls []))).
+  { rewrite Forall_forall in HP. apply HP. apply nth_In. exact Eidx. }
+  destruct (clause_sat m (nth ci cls [])) eqn:Esat; [eapply IH; eauto|].
+  destruct HPci as [Hx|Hlen]; [congruence|].
+  destruct (remaining m (nth ci cls [])) as [|u [|second rest]] eqn:Erem; simpl in Hlen; try lia.
+  set (nl := if mem_nat ci (wl_get w u) then second else u) in *.
+  assert (Hnl : nl <> lneg a).
+  { assert (Hin : In nl (remaining m (nth ci cls []))).
+    { rewrite Erem. unfold nl. destruct (mem_nat ci (wl_get w u)); simpl; auto. }
+    apply remaining_in in Hin. destruct Hin as [_ Hu]. intros ->. unfold lit_unset in Hu.
+    rewrite lvar_lneg, Hset in Hu. discriminate. }
+  eapply IH; [| |  |exact H].
+  - rewrite (proj1 (wl_push_lens _ _ _)), (proj1 (wl_put_lengths _ _ _)). exact L1.
+  - rewrite (proj2 (wl_push_lens _ _ _)), (proj2 (wl_put_lengths _ _ _)). exact L2.
+  - unfold wl_push. rewrite wl_get_put_other by exact Hnl.
+    rewrite wl_get_put_same by (rewrite lvar_lneg; assumption).
+    rewrite Forall_forall in *. intros x Hx. apply HP.
+    destruct (swap_remove_spec (wl_get w (lneg a)) idx Eidx) as [Hp _].
+    eapply Permutation_in; [exact Hp|right; exact Hx].
+Qed.
+
 Section TD.
 Variable cls : list clause.
 Variable nvars : nat.
